@@ -1,8 +1,8 @@
 SPECIFICATION Spec
 CONSTANTS
-  Keys = {"k1","k2","k3","k4"}
+  Keys = {"k1","k2","k3"}
   Vals = {"v1","v2"}
-  Cap = 3
+  Cap = 2
   ClearAsInCode = TRUE
 INVARIANT ListOK Refines CapacityInv CallbackExactlyOnce NeverCallbackForRetrievable NoLostNodes
 CHECK_DEADLOCK FALSE
